@@ -361,4 +361,110 @@ theorem addAll_common (s : TC K) (ks : List K) :
     simp only [TC.addAll, List.foldl_cons, culled, List.length_cons] at h1 ⊢
     omega
 
+/-! sums over a duplicate-free key universe `U` -/
+
+theorem sum_map_ite (U : List K) (hU : U.Nodup) (a : K) (ha : a ∈ U) (c : Nat) (f : K → Nat)
+    (hf : f a = 0) : (U.map (fun k => if k = a then c else f k)).sum = c + (U.map f).sum := by
+  induction U with
+  | nil => simp at ha
+  | cons u us ih =>
+    have hnd := List.nodup_cons.mp hU
+    by_cases hua : u = a
+    · subst hua
+      have hrest : us.map (fun k => if k = u then c else f k) = us.map f := by
+        apply List.map_congr_left
+        intro k hk
+        have : k ≠ u := fun h => hnd.1 (h ▸ hk)
+        simp [this]
+      simp only [List.map_cons, List.sum_cons, if_true, hrest, hf]; omega
+    · have ha' : a ∈ us := by
+        rcases List.mem_cons.mp ha with h | h
+        · exact absurd h.symm hua
+        · exact h
+      have := ih hnd.2 ha'
+      simp only [List.map_cons, List.sum_cons, hua, if_false, this]; omega
+
+theorem sum_map_zero (U : List K) : (U.map (fun _ => 0)).sum = 0 := by
+  induction U with
+  | nil => rfl
+  | cons u us ih => simp only [List.map_cons, List.sum_cons, ih]
+
+theorem sum_map_add (U : List K) (f g : K → Nat) :
+    (U.map (fun k => f k + g k)).sum = (U.map f).sum + (U.map g).sum := by
+  induction U with
+  | nil => simp
+  | cons u us ih => simp only [List.map_cons, List.sum_cons, ih]; omega
+
+theorem sum_map_sub (U : List K) (f g : K → Nat) (h : ∀ k, g k ≤ f k) :
+    (U.map (fun k => f k - g k)).sum = (U.map f).sum - (U.map g).sum ∧ (U.map g).sum ≤ (U.map f).sum := by
+  induction U with
+  | nil => simp
+  | cons u us ih =>
+    have := h u
+    simp only [List.map_cons, List.sum_cons, ih.1]; omega
+
+/-- the true counts of all keys add up to the number of additions -/
+theorem sum_count_eq_length (U : List K) (hU : U.Nodup) (ks : List K) (hks : ∀ k ∈ ks, k ∈ U) :
+    (U.map (fun k => ks.count k)).sum = ks.length := by
+  induction ks with
+  | nil => simpa using sum_map_zero U
+  | cons a as ih =>
+    have ih' := ih (fun k hk => hks k (List.mem_cons_of_mem _ hk))
+    have ha := hks a (List.mem_cons_self ..)
+    have h1 := sum_map_ite U hU a ha 1 (fun _ => 0) rfl
+    have hfun : (fun k => List.count k (a :: as)) = (fun k => as.count k + (if k = a then 1 else (fun _ => 0) k)) := by
+      funext k
+      rw [List.count_cons]
+      by_cases h : k = a
+      · subst h; simp
+      · have : ¬ (a = k) := fun e => h e.symm
+        simp [h, this]
+    rw [hfun, sum_map_add, ih', h1, sum_map_zero]
+    simp
+
+theorem get_cons (e : Entry K) (es : List (Entry K)) (t w b : Nat) (k : K) :
+    (⟨t, w, b, e :: es⟩ : TC K).get k = if k = e.key then e.cnt else (⟨t, w, b, es⟩ : TC K).get k := by
+  unfold TC.get
+  simp only [lookup]
+  by_cases h : e.key = k
+  · simp [h]
+  · have : ¬ (k = e.key) := fun x => h x.symm
+    simp [h, this]
+
+/-- the reported counts of all keys add up to `get_common_count()` -/
+theorem sum_get_eq_common (U : List K) (hU : U.Nodup) (t w b : Nat) (cm : List (Entry K))
+    (hnd : (keysOf cm).Nodup) (hsub : ∀ k ∈ keysOf cm, k ∈ U) :
+    (U.map (fun k => (⟨t, w, b, cm⟩ : TC K).get k)).sum = (cm.map (·.cnt)).sum := by
+  induction cm with
+  | nil => simpa [TC.get, lookup] using sum_map_zero U
+  | cons e es ih =>
+    simp only [keysOf, List.map_cons, List.nodup_cons] at hnd
+    have ih' := ih hnd.2 (fun k hk => hsub k (by simp only [keysOf, List.map_cons]; exact List.mem_cons_of_mem _ hk))
+    have he : e.key ∈ U := hsub e.key (by simp [keysOf])
+    have h0 : (⟨t, w, b, es⟩ : TC K).get e.key = 0 := by
+      unfold TC.get
+      have : lookup e.key es = none := (lookup_none_iff e.key es).mpr hnd.1
+      simp [this]
+    have hfun : (fun k => (⟨t, w, b, e :: es⟩ : TC K).get k)
+        = (fun k => if k = e.key then e.cnt else (⟨t, w, b, es⟩ : TC K).get k) := by
+      funext k; exact get_cons e es t w b k
+    rw [hfun, sum_map_ite U hU e.key he e.cnt _ h0, ih']
+    simp
+
+/-- `update(other counter)`: the additions asked for are the other counter's reported counts -/
+theorem wsum_items (k : K) (cm : List (Entry K)) (hnd : (keysOf cm).Nodup) :
+    wsum k (cm.map fun e => (e.key, e.cnt)) = match lookup k cm with
+      | some e => e.cnt
+      | none => 0 := by
+  induction cm with
+  | nil => simp [wsum, lookup]
+  | cons e es ih =>
+    simp only [keysOf, List.map_cons, List.nodup_cons] at hnd
+    have ih' := ih hnd.2
+    simp only [wsum, List.map_cons, List.sum_cons, lookup] at ih' ⊢
+    by_cases h : e.key = k
+    · have : lookup k es = none := by rw [lookup_none_iff, ← h]; exact hnd.1
+      simp only [h, if_true, ih', this]; omega
+    · simp only [h, if_false, ih']; omega
+
 end C20
